@@ -59,8 +59,10 @@ type memFile struct {
 }
 
 func (m *memFile) grow(n int64) {
-	if n > 1<<20 {
-		n = 1 << 20 // a real file would be sparse: the harness' own buffer stops at 1 MiB
+	if n > 1<<12 && n > int64(len(m.b)) {
+		// a real file would be sparse: the harness' own buffer grows by at most 4 KiB beyond what
+		// it holds (its allocations are seen by the allocation meter of the oracle)
+		n = max(int64(len(m.b)), 1<<12)
 	}
 	if int64(len(m.b)) < n {
 		m.b = append(m.b, make([]byte, n-int64(len(m.b)))...)
@@ -154,6 +156,8 @@ type cbRec struct {
 	typ   uint32
 	attrs []byte
 	data  []byte
+	// dfields: length / count / offset / size fields inside the data (offsets relative to the data)
+	dfields []fld
 }
 
 func cbfsArchive(r *Rng, recs []cbRec) ([]byte, []fld) {
@@ -173,13 +177,19 @@ func cbfsArchive(r *Rng, recs []cbRec) ([]byte, []fld) {
 		copy(nm, rec.name)
 		x.raw(nm)
 		if len(rec.attrs) > 0 {
-			// the attribute block as given: tag, size (marked), payload
+			// the attribute block as given: a chain of (tag, size, payload); every size is marked
 			base := len(x.b)
 			x.raw(rec.attrs)
-			if len(rec.attrs) >= 8 {
-				x.f = append(x.f, fld{base + 4, 4, true, 1})
+			for o := 0; o+8 <= len(rec.attrs); {
+				x.f = append(x.f, fld{base + o + 4, 4, true, 1})
+				sz := int(binary.BigEndian.Uint32(rec.attrs[o+4:]))
+				if sz < 8 {
+					break
+				}
+				o += sz
 			}
 		}
+		x.f = append(x.f, shift(rec.dfields, len(x.b))...)
 		x.raw(rec.data)
 	}
 	return x.b, x.f
@@ -187,20 +197,82 @@ func cbfsArchive(r *Rng, recs []cbRec) ([]byte, []fld) {
 
 func be32b(v uint32) []byte { b := make([]byte, 4); binary.BigEndian.PutUint32(b, v); return b }
 
-func seedCbfs(r *Rng) seed {
-	comp := append(append(append(be32b(0x42435a4c), be32b(16)...), be32b(uint32(r.Pick(0, 1, 2)))...), be32b(100)...)
-	stage := append(make([]byte, 28), r.Bytes(20)...)
-	binary.BigEndian.PutUint32(stage[20:], 20) // StageHeader.Size
-	payload := append(append(be32b(0x45444F43), make([]byte, 24)...), append(be32b(0x52544E45), make([]byte, 24)...)...)
-	recs := []cbRec{
-		{"cbfs master header", 2, nil, r.Bytes(32)},
-		{"fallback/romstage", 0x10, nil, stage},
-		{"fallback/payload", 0x20, comp, append(payload, r.Bytes(9)...)},
-		{"config", 0x50, comp, r.Bytes(r.Pick(0, 5, 40))},
-		{"", 0, nil, bytes.Repeat([]byte{0xff}, 48)},
-		{"unknown", 0x777, nil, r.Bytes(8)},
-		{"bootblock", 1, nil, r.Bytes(17)},
+// cbfsAttrs: an attribute block; optionally an attribute with another tag in front of the
+// compression attribute (so that FindAttribute has to step over it) and an end tag behind it
+func cbfsAttrs(r *Rng, compression uint32) []byte {
+	var a []byte
+	if r.Chance(1, 2) {
+		n := r.Pick(0, 4, 12)
+		a = append(append(append(a, be32b(0x68736148)...), be32b(uint32(8+n))...), r.Bytes(n)...) // 'Hash'
 	}
+	a = append(append(append(append(a, be32b(0x42435a4c)...), be32b(16)...), be32b(compression)...), be32b(100)...)
+	if r.Chance(1, 3) {
+		a = append(append(a, be32b(0)...), be32b(8)...)
+	}
+	return a
+}
+
+// a raw file whose compression attribute is truthful (data really encoded by the package's LZMA /
+// LZ4 encoder) or not (random bytes); the LZMA stream header's dictionary and size fields are marked
+func cbfsCompressedRec(r *Rng, name string, typ uint32) cbRec {
+	comp := uint32(r.Pick(0, 1, 1, 2, 2, 7))
+	plain := append(bytes.Repeat([]byte("cbfs "), r.Pick(1, 9)), r.Bytes(r.Pick(0, 7))...)
+	rec := cbRec{name: name, typ: typ, attrs: cbfsAttrs(r, comp), data: r.Bytes(r.Pick(0, 5, 40))}
+	if r.Chance(1, 4) {
+		return rec
+	}
+	switch comp {
+	case 1:
+		if e, err := (&compression.LZMA{}).Encode(plain); err == nil {
+			rec.data = smallDict(e)
+			rec.dfields = []fld{{1, 4, false, 1}, {5, 8, false, 1}}
+		}
+	case 2:
+		if e, err := (&compression.LZ4{}).Encode(plain); err == nil {
+			rec.data = e
+		}
+	}
+	return rec
+}
+
+func seedCbfs(r *Rng) seed {
+	// legacy stage: little-endian StageHeader (compression, entry, load address, size, memsize) + data
+	nst := r.Pick(0, 7, 20)
+	sh := &bld{}
+	sh.u32(0).u64(0x1000).u64(0x2000).L32(uint64(nst)).L32(uint64(nst + 64))
+	stage := append(sh.b, r.Bytes(nst)...)
+	// SELF payload: big-endian segment headers up to and including the entry segment, then the body
+	ph := &bld{}
+	segTypes := []uint32{0x434F4445, 0x44415441, 0x42535320, 0x50415241}
+	nseg := r.Pick(0, 1, 3)
+	for i := 0; i < nseg; i++ {
+		ph.b32(uint64(segTypes[r.Intn(len(segTypes))])).b32(uint64(r.Pick(0, 1, 2))).B32(uint64(28*(nseg+1) + 4*i)).b64(0x100000).B32(4).B32(uint64(r.Pick(4, 4096)))
+	}
+	ph.b32(0x454E5452).b32(0).B32(0).b64(0x100000).B32(0).B32(0)
+	payload := append(append([]byte{}, ph.b...), r.Bytes(4*nseg+r.Pick(0, 9))...)
+	// master header (big endian): magic, version, rom size, boot block size, align, offset, architecture, pad
+	mh := &bld{}
+	mh.b32(0x4F524243).b32(0x31313132).B32(0x100000).B32(0x1000).B32(64).B32(0x400).b32(1).b32(0)
+	recs := []cbRec{
+		{"cbfs master header", 2, nil, mh.b, mh.f},
+		{"fallback/romstage", 0x10, nil, stage, sh.f},
+		{"fallback/payload", 0x20, cbfsAttrs(r, uint32(r.Pick(0, 1, 2))), payload, ph.f},
+		cbfsCompressedRec(r, "config", 0x50),
+		cbfsCompressedRec(r, "etc/data", 0x50),
+		{"", uint32(r.Pick(0, 0xffffffff)), nil, bytes.Repeat([]byte{0xff}, 48), nil},
+		{"unknown", 0x777, nil, r.Bytes(8), nil},
+	}
+	// some of the other registered types (their readers keep the data as it is)
+	for _, t := range []uint32{0x11, 0x30, 0x40, 0x53, 0x60, 0xaa, 0xab, 0x1aa, 0x21} {
+		if r.Chance(1, 3) {
+			var at []byte
+			if r.Chance(1, 3) {
+				at = cbfsAttrs(r, uint32(r.Pick(0, 1, 2)))
+			}
+			recs = append(recs, cbRec{"f" + strconv.Itoa(int(t)), t, at, r.Bytes(r.Pick(0, 1, 16, 33)), nil})
+		}
+	}
+	recs = append(recs, cbRec{"bootblock", 1, nil, r.Bytes(17), nil})
 	arch, fs := cbfsArchive(r, recs)
 	s := seedFmap(r, 3, arch)
 	s.name = "cbfs"
@@ -320,7 +392,7 @@ func psbKeyBlob(id, cert []byte, usage uint32, expBits, modBits uint32, exp, mod
 var seedKeyID = bytes.Repeat([]byte{0x11}, 16)
 
 func rootKeySeedBytes() []byte {
-	if k := artifact("pkg/amd/psb/keys_artifacts_test.go", "amdRootKey"); len(k) > 64 {
+	if k := artifactCached("pkg/amd/psb/keys_artifacts_test.go", "amdRootKey"); len(k) > 64 {
 		return k
 	}
 	mod := bytes.Repeat([]byte{0xC3}, 256)
@@ -341,12 +413,20 @@ func seedRootKey(r *Rng) seed {
 	return x.seed("psb_keys")
 }
 
-func seedTokenKey(r *Rng) seed {
-	mod := r.Bytes(256)
-	exp := make([]byte, 256)
-	exp[0], exp[2] = 1, 1
-	x := psbKeyBlob(r.Bytes(16), rootKeyID(), 8, 2048, 2048, exp, mod)
-	x.raw(r.Bytes(512)) // signature of the size of the certifying key's modulus (2048 or 4096 bit)
+func seedTokenKey(r *Rng) seed { return seedTokenKeySized(r, 2048, 2048, 512) }
+
+// seedTokenKeySized: a token key with the given exponent / modulus sizes (bits) followed by sigLen
+// signature bytes.  The certifying key of the worker's key set has its own modulus size, so keys
+// larger and smaller than their signer, with a full-width or a short exponent field, and with a
+// signature shorter / longer than the signer's modulus all occur.
+func seedTokenKeySized(r *Rng, expBits, modBits, sigLen int) seed {
+	mod := r.Bytes(modBits / 8)
+	exp := make([]byte, expBits/8)
+	if len(exp) >= 3 {
+		exp[0], exp[2] = 1, 1
+	}
+	x := psbKeyBlob(r.Bytes(16), rootKeyID(), 8, uint32(expBits), uint32(modBits), exp, mod)
+	x.raw(r.Bytes(sigLen))
 	return x.seed("psb_keys")
 }
 
@@ -576,20 +656,42 @@ func seedApcbReal() (seed, bool) {
 }
 
 // a small synthetic APCB: v3 header, one token group with boolean / 1 / 2 / 4 byte token types
-func seedApcbSynthetic(r *Rng) seed {
+func seedApcbSynthetic(r *Rng) seed { return seedApcbShaped(r, 0) }
+
+// seedApcbShaped: shape 0 = one token group with four types; 1 = header only (no group at all);
+// 2 = only a group the package skips (not the token group); 3 = a token group without types;
+// 4 = a foreign group in front of the token group; 5 = a token group holding a single type
+func seedApcbShaped(r *Rng, shape int) seed {
 	body := &bld{}
 	types := []struct{ typeID, unit int }{{0, 1}, {1, 1}, {2, 2}, {4, 4}}
+	switch shape {
+	case 1, 2, 3:
+		types = nil
+	case 5:
+		types = types[r.Intn(4):][:1]
+	}
 	for _, t := range types {
 		n := r.Pick(1, 2, 3)
 		x := &bld{}
-		x.u16(0x3000).u16(uint64(t.typeID)).u16(uint64(16+8*n)).u16(0).u8(2).u8(1).u8(8).u8(uint64(r.Pick(0x20, 0x10, 0xff))).u8(4).u8(0).u16(0xffff)
+		x.u16(0x3000).u16(uint64(t.typeID)).u16(uint64(16 + 8*n)).u16(0).u8(2).u8(1).u8(8).u8(uint64(r.Pick(0x20, 0x10, 0xff))).u8(4).u8(0).u16(0xffff)
 		for i := 0; i < n; i++ {
 			x.u32(uint64(r.U64() & 0xffffffff)).u32(uint64(r.U64()) & wmask(max(t.unit, 1)))
 		}
 		body.raw(x.b)
 	}
 	grp := &bld{}
-	grp.raw([]byte("TOKN")).u16(0x3000).u16(16).u16(1).u16(0).u32(uint64(16 + len(body.b))).raw(body.b)
+	foreign := &bld{}
+	foreign.raw([]byte("MEMG")).u16(0x1704).u16(16).u16(1).u16(0).u32(uint64(16 + 24)).raw(r.Bytes(24))
+	switch shape {
+	case 1:
+	case 2:
+		grp.raw(foreign.b)
+	case 4:
+		grp.raw(foreign.b)
+		fallthrough
+	default:
+		grp.raw([]byte("TOKN")).u16(0x3000).u16(16).u16(1).u16(0).u32(uint64(16 + len(body.b))).raw(body.b)
+	}
 	h := &bld{}
 	total := 128 + len(grp.b)
 	h.raw([]byte("APCB")).u16(128).u16(0x30).u32(uint64(total)).u32(0x22ef).u8(0).zero(3).zero(12)
@@ -665,6 +767,67 @@ func seedFSP(r *Rng, rev int) seed {
 
 // ---------- compression ----------
 
+// zlibFrames: the size field of the 256-byte section header made consistent with the buffer
+// length for buffers shorter than / exactly / just longer than the header (the field is compared
+// with uint32(len - 256), which wraps for short buffers: a truncated seed alone never passes it)
+func zlibFrames(r *Rng) []seed {
+	var out []seed
+	for _, n := range []int{24, 25, 100, 255, 256, 257, 258, 300} {
+		b := make([]byte, n)
+		if n > 256 {
+			copy(b[256:], r.Bytes(n-256))
+		}
+		binary.LittleEndian.PutUint32(b[20:], uint32(n-256))
+		out = append(out, seed{name: "zlib", b: b, bare: true})
+	}
+	return out
+}
+
+// smallDict rewrites the dictionary size an LZMA stream header announces (bytes 1..4) from the
+// 8 MiB fiano's encoder always writes to 64 KiB: still a valid stream for a small payload, and
+// the third-party reader then allocates 64 KiB instead of 8 MiB per case.  Used for the seeds that
+// exist in many copies (CBFS records, the additional LZMAX86 payloads); the main LZMA / LZMAX86
+// seeds stay exactly as the encoder produced them.
+func smallDict(e []byte) []byte {
+	if len(e) >= 13 {
+		binary.LittleEndian.PutUint32(e[1:], 1<<16)
+	}
+	return e
+}
+
+// lzmax86Tails: valid LZMA streams whose payloads put a branch opcode (E8 / E9) at each of the
+// last six positions, once behind filler and once right behind another opcode (the filter's mask
+// state differs), and payloads of 0..5 bytes (shorter than one instruction).  The x86 filter
+// looks four bytes ahead of every opcode, so where the last opcode sits relative to the end of
+// the data is the boundary of every index it computes.
+func lzmax86Tails() []seed {
+	var out []seed
+	enc := func(plain []byte) {
+		if e, err := (&compression.LZMA{}).Encode(plain); err == nil {
+			out = append(out, seed{name: "lzmax86", b: smallDict(e), bare: true})
+		}
+	}
+	for n := 0; n <= 5; n++ {
+		p := make([]byte, n)
+		for i := range p {
+			p[i] = 0xE8
+		}
+		enc(p)
+	}
+	for _, op := range []byte{0xE8, 0xE9} {
+		for k := 1; k <= 6; k++ {
+			for _, pre := range [][]byte{{0x90, 0x90, 0x90, 0x90, 0x90, 0x90, 0x90, 0x90}, {0x90, 0x90, 0x90, 0x90, 0x90, 0x90, op, 0x00}, {0x90, 0x90, 0x90, op, 0x01, 0x02, 0x03, 0x00}} {
+				p := append(append([]byte{}, pre...), op)
+				for i := 1; i < k; i++ {
+					p = append(p, byte(i))
+				}
+				enc(p)
+			}
+		}
+	}
+	return out
+}
+
 func seedCompressed(r *Rng, which string) (seed, bool) {
 	plain := bytes.Repeat([]byte("fiano C20 seed "), r.Pick(1, 4, 30))
 	plain = append(plain, r.Bytes(r.Pick(0, 16, 100))...)
@@ -677,6 +840,19 @@ func seedCompressed(r *Rng, which string) (seed, bool) {
 	case "lzmax86":
 		c = &compression.LZMA{}
 		plain = append(plain, 0xE8, 1, 2, 3, 4, 0xE9, 0xff, 0xff, 0xff, 0xff, 5, 6, 7, 8)
+		// the branch filter looks four bytes ahead of every E8 / E9: opcodes in each of the last
+		// six positions, and payloads shorter than one instruction
+		switch r.Intn(4) {
+		case 0:
+			plain = plain[:r.Intn(6)]
+		case 1, 2:
+			tail := r.Bytes(6)
+			tail[r.Intn(6)] = byte(r.Pick(0xE8, 0xE9))
+			if r.Bool() {
+				tail[r.Intn(6)] = byte(r.Pick(0xE8, 0xE9))
+			}
+			plain = append(plain, tail...)
+		}
 		s.fields = []fld{{1, 4, false, 1}, {5, 8, false, 1}}
 	case "lz4":
 		c = &compression.LZ4{}
